@@ -28,6 +28,9 @@ type Parser struct {
 	inputLen    int
 	// txComments collects the indented comment lines of the transaction being parsed
 	txComments []ast.Comment
+	// prevEnd is the end of the last consumed token that is not a line break or indentation:
+	// ranges end there, not at the start of whatever follows
+	prevEnd Position
 }
 
 func Parse(input string) (*ast.Journal, []ParseError) {
@@ -114,6 +117,7 @@ func (p *Parser) parseTransaction() *ast.Transaction {
 
 	if p.current.Type == TokenText {
 		desc := p.current.Value
+		tx.PayeeRange = ast.Range{Start: toASTPosition(p.current.Pos), End: toASTPosition(tokenEnd(p.current))}
 		p.advance()
 
 		if p.current.Type == TokenPipe {
@@ -153,7 +157,7 @@ func (p *Parser) parseTransaction() *ast.Transaction {
 	tx.Comments = append(tx.Comments, p.txComments...)
 	p.txComments = nil
 
-	tx.Range.End = toASTPosition(p.current.Pos)
+	tx.Range.End = toASTPosition(p.prevEnd)
 	return tx
 }
 
@@ -313,7 +317,7 @@ func (p *Parser) parsePosting() *ast.Posting {
 		p.advance()
 	}
 
-	posting.Range.End = toASTPosition(p.current.Pos)
+	posting.Range.End = toASTPosition(p.prevEnd)
 
 	// anything left on the line was not understood: report it here instead of letting it start
 	// a new entry in the middle of the line (a date-like word would silently open a transaction)
@@ -397,7 +401,7 @@ func (p *Parser) parseAmount() *ast.Amount {
 		}
 	}
 
-	amount.Range.End = toASTPosition(p.current.Pos)
+	amount.Range.End = toASTPosition(p.prevEnd)
 	return amount
 }
 
@@ -415,7 +419,7 @@ func (p *Parser) parseCost() *ast.Cost {
 		return nil
 	}
 	cost.Amount = *amount
-	cost.Range.End = toASTPosition(p.current.Pos)
+	cost.Range.End = toASTPosition(p.prevEnd)
 	return cost
 }
 
@@ -433,7 +437,7 @@ func (p *Parser) parseBalanceAssertion() *ast.BalanceAssertion {
 		return nil
 	}
 	ba.Amount = *amount
-	ba.Range.End = toASTPosition(p.current.Pos)
+	ba.Range.End = toASTPosition(p.prevEnd)
 	return ba
 }
 
@@ -480,7 +484,7 @@ func (p *Parser) parseAccountDirective(startPos Position) ast.Directive {
 	dir := ast.AccountDirective{
 		Account: ast.Account{
 			Name:  accountName,
-			Range: ast.Range{Start: toASTPosition(accountPos)},
+			Range: ast.Range{Start: toASTPosition(accountPos), End: toASTPosition(p.prevEnd)},
 		},
 		Range: ast.Range{Start: toASTPosition(startPos)},
 	}
@@ -496,7 +500,7 @@ func (p *Parser) parseAccountDirective(startPos Position) ast.Directive {
 	}
 
 	dir.Subdirs = p.parseSubdirectives()
-	dir.Range.End = toASTPosition(p.current.Pos)
+	dir.Range.End = toASTPosition(p.prevEnd)
 
 	return dir
 }
@@ -512,7 +516,7 @@ func (p *Parser) parseCommodityDirective(startPos Position) ast.Directive {
 		symbol := p.current.Value
 		dir.Commodity = ast.Commodity{
 			Symbol: symbol,
-			Range:  ast.Range{Start: toASTPosition(p.current.Pos)},
+			Range:  ast.Range{Start: toASTPosition(p.current.Pos), End: toASTPosition(tokenEnd(p.current))},
 		}
 		p.advance()
 
@@ -529,7 +533,7 @@ func (p *Parser) parseCommodityDirective(startPos Position) ast.Directive {
 		if p.current.Type == TokenCommodity || p.current.Type == TokenText {
 			dir.Commodity = ast.Commodity{
 				Symbol: p.current.Value,
-				Range:  ast.Range{Start: toASTPosition(p.current.Pos)},
+				Range:  ast.Range{Start: toASTPosition(p.current.Pos), End: toASTPosition(tokenEnd(p.current))},
 			}
 			dir.Format = number + " " + p.current.Value
 			p.advance()
@@ -537,7 +541,7 @@ func (p *Parser) parseCommodityDirective(startPos Position) ast.Directive {
 	case TokenText:
 		dir.Commodity = ast.Commodity{
 			Symbol: p.current.Value,
-			Range:  ast.Range{Start: toASTPosition(p.current.Pos)},
+			Range:  ast.Range{Start: toASTPosition(p.current.Pos), End: toASTPosition(tokenEnd(p.current))},
 		}
 		p.advance()
 	}
@@ -558,13 +562,14 @@ func (p *Parser) parseCommodityDirective(startPos Position) ast.Directive {
 		dir.Note = note
 	}
 
-	dir.Range.End = toASTPosition(p.current.Pos)
+	dir.Range.End = toASTPosition(p.prevEnd)
 	return dir
 }
 
 func (p *Parser) parseIncludeDirective(startPos Position) ast.Directive {
 	var path strings.Builder
 
+	pathStart := p.current.Pos
 	for p.current.Type != TokenNewline && p.current.Type != TokenEOF && p.current.Type != TokenComment {
 		path.WriteString(p.current.Value)
 		p.advance()
@@ -578,10 +583,11 @@ func (p *Parser) parseIncludeDirective(startPos Position) ast.Directive {
 	}
 
 	inc := ast.Include{
-		Path:  pathStr,
-		Range: ast.Range{Start: toASTPosition(startPos)},
+		Path:      pathStr,
+		Range:     ast.Range{Start: toASTPosition(startPos)},
+		PathRange: ast.Range{Start: toASTPosition(pathStart), End: toASTPosition(p.prevEnd)},
 	}
-	inc.Range.End = toASTPosition(p.current.Pos)
+	inc.Range.End = toASTPosition(p.prevEnd)
 	p.skipToNextLine()
 	return inc
 }
@@ -601,7 +607,7 @@ func (p *Parser) parsePriceDirective(startPos Position) ast.Directive {
 	if p.current.Type == TokenCommodity || p.current.Type == TokenText {
 		dir.Commodity = ast.Commodity{
 			Symbol: p.current.Value,
-			Range:  ast.Range{Start: toASTPosition(p.current.Pos)},
+			Range:  ast.Range{Start: toASTPosition(p.current.Pos), End: toASTPosition(tokenEnd(p.current))},
 		}
 		p.advance()
 	} else {
@@ -617,7 +623,7 @@ func (p *Parser) parsePriceDirective(startPos Position) ast.Directive {
 	}
 	dir.Price = *price
 
-	dir.Range.End = toASTPosition(p.current.Pos)
+	dir.Range.End = toASTPosition(p.prevEnd)
 	p.skipToNextLine()
 	return dir
 }
@@ -709,7 +715,7 @@ func (p *Parser) parseDefaultCommodityDirective(startPos Position) ast.Directive
 		}
 	}
 
-	dir.Range.End = toASTPosition(p.current.Pos)
+	dir.Range.End = toASTPosition(p.prevEnd)
 	p.skipToNextLine()
 	return dir
 }
@@ -734,7 +740,7 @@ func (p *Parser) parseYearDirective(startPos Position) ast.Directive {
 		Range: ast.Range{Start: toASTPosition(startPos)},
 	}
 	p.advance()
-	dir.Range.End = toASTPosition(p.current.Pos)
+	dir.Range.End = toASTPosition(p.prevEnd)
 	p.skipToNextLine()
 	return dir
 }
@@ -789,8 +795,9 @@ func parseTags(text string, basePos Position) []ast.Tag {
 			}
 		}
 
-		startCol := basePos.Column + 1 + tagStart
-		endCol := basePos.Column + 1 + tagEnd
+		// tagStart/tagEnd are byte offsets into the comment text; columns are UTF-16 units
+		startCol := basePos.Column + 1 + utf16Units(text[:tagStart])
+		endCol := basePos.Column + 1 + utf16Units(text[:tagEnd])
 
 		tags = append(tags, ast.Tag{
 			Name:  name,
@@ -807,6 +814,17 @@ func parseTags(text string, basePos Position) []ast.Tag {
 	return tags
 }
 
+func utf16Units(s string) int {
+	n := 0
+	for _, r := range s {
+		n++
+		if r >= 0x10000 {
+			n++
+		}
+	}
+	return n
+}
+
 func isValidTagName(name string) bool {
 	for _, r := range name {
 		isLower := r >= 'a' && r <= 'z'
@@ -821,7 +839,28 @@ func isValidTagName(name string) bool {
 }
 
 func (p *Parser) advance() {
+	switch p.current.Type {
+	case TokenNewline, TokenIndent, TokenEOF:
+	default:
+		p.prevEnd = tokenEnd(p.current)
+	}
 	p.current = p.lexer.Next()
+}
+
+// tokenEnd is the position behind the last character of a token. Text tokens are scanned up to
+// the next delimiter and may be followed by blanks that do not belong to them.
+func tokenEnd(tok Token) Position {
+	if tok.Type != TokenText {
+		return tok.End
+	}
+	units := 0
+	for _, r := range tok.Value {
+		units++
+		if r >= 0x10000 {
+			units++
+		}
+	}
+	return Position{Line: tok.Pos.Line, Column: tok.Pos.Column + units, Offset: tok.Pos.Offset + len(tok.Value)}
 }
 
 func (p *Parser) skipToNextLine() {
